@@ -198,6 +198,11 @@ func (msg *message) bodySection(item *imap.FetchItemBodySection) []byte {
 
 	// Extract partial if any
 	b := buf.Bytes()
+	if len(item.Part) == 0 && item.Specifier == imap.PartSpecifierNone {
+		// BODY[] is the message as it was stored, not a re-serialization
+		// (which adds a blank line to a message that has no body separator)
+		b = msg.buf
+	}
 	if partial := item.Partial; partial != nil {
 		if partial.Offset < 0 || partial.Offset > int64(len(b)) {
 			return nil
